@@ -180,42 +180,54 @@ def single_site_part(ck, seed):
         m = max(logpi.values())
         tot = sum(math.exp(v - m) for v in logpi.values())
         pi = {c: math.exp(v - m) / tot for c, v in logpi.items()}
-        flow = {c: 0.0 for c in cands}
-        bad = None
-        for c in cands:
-            rng = EnumRNG()
-            from phyclone.mcmc.gibbs_mh import DataPointSampler
-            sampler = DataPointSampler(dist, rng, outliers=True)
-            sub = [dp for dp in data if dp.idx in absstate.data_ids(c)]
+        # start trees: freshly built, and after the two halves of a prune-regraft move (the largest clone below another clone
+        # cut out and re-attached where it hung, without a whole-tree refresh): the same forest at other graph positions
+        for history in ("fresh", "after_regraft"):
+            flow = {c: 0.0 for c in cands}
+            bad = None
+            for c in cands:
+                rng = EnumRNG()
+                from phyclone.mcmc.gibbs_mh import DataPointSampler
+                sampler = DataPointSampler(dist, rng, outliers=True)
+                sub = [dp for dp in data if dp.idx in absstate.data_ids(c)]
 
-            def go():
-                t = absstate.build(c, sub)
-                return sampler._sample_tree(d, t, t.labels[d])
+                def go():
+                    t = absstate.build(c, sub)
+                    if history == "after_regraft":
+                        _, conc = absstate.project(t, full=False)
+                        for v in sorted(conc["names"], key=lambda m_: -len(conc["clade"][m_])):
+                            par_v = conc["par"][v]
+                            if par_v != t._ROOT_NODE_NAME:
+                                piece = t.get_subtree(v)
+                                t.remove_subtree(piece)
+                                t.add_subtree(piece, parent=par_v)
+                                break
+                    return sampler._sample_tree(d, t, t.labels[d])
 
-            for out, p, _ in enumerate_paths(go, rng):
-                try:
-                    k2 = absstate.project(out, full=True)[0]
-                except absstate.Inconsistent as ex:
-                    bad = "reassigning data point %d in %s returned an inconsistent tree: %s" % (d, absstate.key_str(c), ex)
+                for out, p, _ in enumerate_paths(go, rng):
+                    try:
+                        k2 = absstate.project(out, full=True)[0]
+                    except absstate.Inconsistent as ex:
+                        bad = "reassigning data point %d in %s returned an inconsistent tree: %s" % (d, absstate.key_str(c), ex)
+                        break
+                    if k2 not in cset:
+                        bad = "reassigning data point %d in %s returned %s, which is not a candidate of MoveRel.tla" % (d, absstate.key_str(c), absstate.key_str(k2))
+                        break
+                    flow[k2] += pi[c] * p
+                if bad:
                     break
-                if k2 not in cset:
-                    bad = "reassigning data point %d in %s returned %s, which is not a candidate of MoveRel.tla" % (d, absstate.key_str(c), absstate.key_str(k2))
-                    break
-                flow[k2] += pi[c] * p
+            blocks += 1
+            ck.evaluations += len(cands)
+            ck.nontrivial("single_site|%d|%d" % (rec["id"], d))
+            rep = {"start": SINGLE_SITE_STARTS[rec["id"]], "d": d, "candidates": [absstate.to_json(c) for c in cands]}
             if bad:
-                break
-        blocks += 1
-        ck.evaluations += len(cands)
-        ck.nontrivial("single_site|%d|%d" % (rec["id"], d))
-        rep = {"start": SINGLE_SITE_STARTS[rec["id"]], "d": d, "candidates": [absstate.to_json(c) for c in cands]}
-        if bad:
-            ck.violation("C04|single_site|support", bad, rep)
-            continue
-        res = max(abs(flow[c] - pi[c]) for c in cands)
-        if res > 1e-10:
-            worst = max(cands, key=lambda c: abs(flow[c] - pi[c]))
-            ck.violation("C04|single_site|nonstationary", "reassigning data point %d among the %d candidate trees of %s does not preserve the posterior on that block: max |pi K - pi| = %.3g (at %s: %.6g vs %.6g)" % (
-                d, len(cands), absstate.key_str(starts[rec["id"]]), res, absstate.key_str(worst), flow[worst], pi[worst]), rep)
+                ck.violation("C04|single_site|support", bad + " [start trees: %s]" % history, rep)
+                continue
+            res = max(abs(flow[c] - pi[c]) for c in cands)
+            if res > 1e-10:
+                worst = max(cands, key=lambda c: abs(flow[c] - pi[c]))
+                ck.violation("C04|single_site|nonstationary", "reassigning data point %d among the %d candidate trees of %s does not preserve the posterior on that block [start trees: %s]: max |pi K - pi| = %.3g (at %s: %.6g vs %.6g)" % (
+                    d, len(cands), absstate.key_str(starts[rec["id"]]), history, res, absstate.key_str(worst), flow[worst], pi[worst]), rep)
     ck.traces_validated += blocks
     ck.extra["single_site_blocks"] = blocks
 
